@@ -64,7 +64,7 @@ func srcLine(file string, line int) string {
 // clauseKey identifies what an obligation is about independently of ordinals and line numbers.
 func clauseKey(o *Obligation) string {
 	switch o.Kind {
-	case "post", "pre", "inv-init", "inv-pres", "global", "lemma", "cost", "assert", "unwind", "step":
+	case "post", "pre", "inv-init", "inv-pres", "global", "lemma", "cost", "assert", "unwind", "step", "reads":
 		k := o.Func + "/" + o.Kind + "/"
 		if o.Label != "" {
 			k += o.Label + "#"
